@@ -1,7 +1,9 @@
 import CoapVerif.Spec.SendQueue
 /-
 S — the retransmission timer of RFC 7252 §4.2 as a small transition system over absolute deadlines (C06, P2):
-`send` transmits and arms `now + T`; a `tick` fires whatever is due, earliest first — retransmit and re-arm
+`send` transmits and arms `now + T`; a `tick` fires whatever is due, earliest first (`tickN now k`: the clock has come to
+`now` and at most the `k` earliest due entries have fired — a tick observed part-way, `tick = tickN` with enough `k`;
+`tickN now 0` is time passing) — retransmit and re-arm
 `now + T·2^(cnt+1)` while `cnt < MAX_RETRANSMIT`, else NACK (too many retries); `ack` / `rst` conclude the first
 pending entry of (session, mid).  Outputs carry the ghost labels `t0` (first transmission) and `T` so that the
 schedule theorem can be stated on the outputs alone.  Written from the RFC and the property text.
@@ -29,6 +31,7 @@ inductive TOut where
 inductive TEv where
   | send (s mid T maxRtx : Nat)
   | tick (now : Nat)
+  | tickN (now k : Nat)      -- time has come to `now` and (at most) the `k` earliest due entries have fired so far
   | ack (s mid : Nat)
   | rst (s mid : Nat)
   deriving Repr, DecidableEq
@@ -75,6 +78,7 @@ def step (ts : TS) : TEv → TS
       pend := pinsert ts.pend (ts.now + T, { sess := s, mid := mid, T := T, cnt := 0, maxRtx := mx, t0 := ts.now })
       outs := .tx ts.now s mid 0 ts.now T mx :: ts.outs }
   | .tick now' => if ts.now ≤ now' then fire (tickFuel ts) { ts with now := now' } else ts
+  | .tickN now' k => if ts.now ≤ now' then fire k { ts with now := now' } else ts
   | .ack s mid =>
     match premove ts.pend s mid with
     | (some _, r) => { ts with pend := r, outs := .acked ts.now s mid :: ts.outs }
@@ -93,6 +97,7 @@ a send has a positive timeout -/
 def EvOk (ts : TS) : TEv → Prop
   | .send _ _ T _ => 0 < T
   | .tick now' => ∀ p ∈ ts.pend, now' ≤ p.1
+  | .tickN now' _ => ∀ p ∈ ts.pend, now' ≤ p.1
   | _ => True
 
 def RunOk (ts : TS) : List TEv → Prop
